@@ -94,6 +94,8 @@ def build(case, pygam=None):
                              allow_periodic_penalty=True, max_terms=case['max_terms'], tensor_prob=0.25)
     tl = pr.terms
     m = int(tl.n_coefs)
+    if m > 110:
+        raise ValueError('program too large for the fit streams (m > 110)')
     has_factor = any((t._name == 'factor_term') or (t.istensor and any(s._name == 'factor_term' for s in t._terms)) for t in tl if not t.isintercept)
     mode = case['n_mode']
     n = {'1': 1, '2': 2, 'm-1': max(m - 1, 1), 'm': m, 'm+1': m + 1, 'small': 12, 'mid': 60, 'large': 200, 'xlarge': 260}[mode]
@@ -134,7 +136,7 @@ def build(case, pygam=None):
         if w.sum() == 0:
             w[0] = 1.0
     cls = getattr(pygam, case['cls'])
-    kw = dict(tol=1e-10, max_iter=300)
+    kw = dict(tol=1e-10, max_iter=150)
     fit_intercept = any(t.isintercept for t in tl)
     kw['fit_intercept'] = fit_intercept
     if case['cls'] == 'GAM':
